@@ -118,7 +118,11 @@ func (cb *CircuitBreaker) IOHandler(ctx context.Context, request []byte, next co
 	}()
 	response, err = next(ctx, request)
 	if err == nil {
+		// under the lock as well: between the entry decision's load and its
+		// half-open store this reset would be lost
+		cb.lock.Lock()
 		atomic.StoreUint64(&cb.failCount, 0)
+		cb.lock.Unlock()
 	}
 	return
 }
